@@ -29,8 +29,47 @@ fn open_both(bytes: &[u8], range: Rng, probes: &[u64]) -> (Result<(View, VerifSn
     (s, a)
 }
 
+/// both readers handed a stream that does not stand at position 0 (the header was inspected first, a cursor is re-used,
+/// the stream stands at its end): same outcome on both sides
+fn readers_agree_at(bytes: &[u8], pos: u64, probes: &[u64]) -> Option<(String, String)> {
+    let s = catch(|| {
+        let mut c = std::io::Cursor::new(bytes);
+        c.set_position(pos);
+        PMTiles::from_reader(c).map(|mut pm| view_sync(&mut pm, probes)).map_err(|e| e.to_string())
+    })
+    .unwrap_or_else(|p| Err(format!("PANIC {p}")));
+    let a = catch(|| {
+        let mut c = futures::io::Cursor::new(bytes);
+        c.set_position(pos);
+        block_on(PMTiles::from_async_reader(c)).map(|mut pm| view_async(&mut pm, probes)).map_err(|e| e.to_string())
+    })
+    .unwrap_or_else(|p| Err(format!("PANIC {p}")));
+    match (s, a) {
+        (Ok(mut vs), Ok(mut va)) => {
+            for v in [&mut vs, &mut va] {
+                for t in v.tiles.values_mut() {
+                    if t.is_err() {
+                        *t = Err("error".into());
+                    }
+                }
+            }
+            (vs != va).then(|| ("open-at-position-values-differ".into(), format!("readers handed the stream at position {pos} return different content")))
+        }
+        (Err(x), Err(y)) => (x.starts_with("PANIC") || y.starts_with("PANIC")).then(|| ("open-at-position-panic".into(), format!("stream at position {pos}: sync: {x}; async: {y}"))),
+        (Ok(_), Err(e)) => Some(("open-at-position-only-async-fails".into(), format!("stream handed over at position {pos}: the async reader fails ({e}) where the sync reader succeeds"))),
+        (Err(e), Ok(_)) => Some(("open-at-position-only-sync-fails".into(), format!("stream handed over at position {pos}: the sync reader fails ({e}) where the async reader succeeds"))),
+    }
+}
+
 /// both readers on the same bytes: same value, or an error on both sides
 pub fn readers_agree(bytes: &[u8], range: Rng, probes: &[u64]) -> Option<(String, String)> {
+    if range == (Bound::Unbounded, Bound::Unbounded) && bytes.len() < 50_000 {
+        for pos in [1u64, 127, bytes.len() as u64] {
+            if let Some(x) = readers_agree_at(bytes, pos, &probes[..probes.len().min(3)]) {
+                return Some(x);
+            }
+        }
+    }
     match open_both(bytes, range, probes) {
         (Ok((mut vs, ss)), Ok((mut va, sa))) => {
             // error texts are not part of the contract: an error on both sides is agreement
@@ -225,7 +264,7 @@ fn check_header_bytes(b: &[u8]) -> Option<(String, String)> {
 pub fn run(tier: &str) -> i32 {
     let rep = Report::new("C12", tier, "exploration");
     let thorough = rep.thorough();
-    rep.rule("both API twins on ready-immediately streams over the inputs of C01 (all small maps, metadata/settings alphabets), C03 (foreign product), C05 (all lists of <= 2 entries), C06 (crossing sweep) and C09 (stored-value sweep, enum/version/magic/truncation cases), plus the rejection inputs of C19; readers: equal values (model view + hook snapshot, directories, headers field-wise, maps) or errors on both sides; writers: outputs read back to equal content by both readers and byte-identical for Compression::None; full and four range-filtered opens; non-trivial = inputs with >= 1 tile/entry");
+    rep.rule("both API twins on ready-immediately streams over the inputs of C01 (all small maps, metadata/settings alphabets), C03 (foreign product), C05 (all lists of <= 2 entries), C06 (crossing sweep) and C09 (stored-value sweep, enum/version/magic/truncation cases), plus the rejection inputs of C19; readers: equal values (model view + hook snapshot, directories, headers field-wise, maps) or errors on both sides; writers: outputs read back to equal content by both readers and byte-identical for Compression::None; full and four range-filtered opens, and opens of a stream handed over at position 1 / 127 / its end; non-trivial = inputs with >= 1 tile/entry");
     // (a) logical archives
     let mut items: Vec<Logical> = Vec::new();
     for c in COMPS {
